@@ -72,11 +72,16 @@ static void dump_node(const RE_NODE* n)
 }
 
 // ---- whole-AST function level: private arena, yr_re_ast_emit_code, exhaustive runs
-typedef struct { int n; int len[4096]; int off[4096]; const uint8_t* base; } LENS;
+typedef struct { int n; int len[65536]; int off[65536]; const uint8_t* base; int dedup; uint8_t seen[2048]; } LENS;
 static int collect_cb(const uint8_t* match, int match_length, int flags, void* args)
 {
   LENS* l = (LENS*) args;
-  if (l->n < 4096) { l->len[l->n] = match_length; l->off[l->n] = (int) (match - l->base); l->n++; }
+  if (l->dedup)
+  {
+    // whole-pattern runs only need the SET of lengths (the backward fast matcher reports many duplicates)
+    if (match_length >= 0 && match_length < 2048) { if (l->seen[match_length]) return ERROR_SUCCESS; l->seen[match_length] = 1; }
+  }
+  if (l->n < 65536) { l->len[l->n] = match_length; l->off[l->n] = (int) (match - l->base); l->n++; }
   return ERROR_SUCCESS;
 }
 static int cmp_int(const void* a, const void* b) { return *(const int*) a - *(const int*) b; }
@@ -104,7 +109,7 @@ static void wfx_run(const RE_AST* ast, ASTCB* st, const char* ident)
     emit("%s%s:%c", st->first ? "" : ";", ident, pass ? 'w' : 'a'); st->first = 0;
     for (size_t p = 0; p <= st->buflen; p++)
     {
-      L.n = 0; L.base = st->buf;
+      L.n = 0; L.base = st->buf; L.dedup = 1; memset(L.seen, 0, sizeof L.seen);
       int rc = (fast ? yr_re_fast_exec : yr_re_exec)(st->ctx, fcode, st->buf + p, st->buflen - p, p, fl | RE_FLAGS_EXHAUSTIVE, collect_cb, &L, NULL);
       if (rc != ERROR_SUCCESS) { emit("|f%zu:E%s", p, errname(rc)); continue; }
       if (L.n)
@@ -116,7 +121,7 @@ static void wfx_run(const RE_AST* ast, ASTCB* st, const char* ident)
     }
     for (size_t q = 0; q <= st->buflen; q++)
     {
-      L.n = 0; L.base = st->buf;
+      L.n = 0; L.base = st->buf; L.dedup = 1; memset(L.seen, 0, sizeof L.seen);
       int rc = (fast ? yr_re_fast_exec : yr_re_exec)(st->ctx, bcode, st->buf + q, st->buflen - q, q, fl | RE_FLAGS_EXHAUSTIVE | RE_FLAGS_BACKWARDS, collect_cb, &L, NULL);
       if (rc != ERROR_SUCCESS) { emit("|b%zu:E%s", q, errname(rc)); continue; }
       if (L.n)
@@ -294,7 +299,7 @@ int main()
                 emit("|%zu:%c:%d:", p, pass ? 'w' : 'a', F);
                 if (pairs[k].b)
                 {
-                  L.n = 0; L.base = buf;
+                  L.n = 0; L.base = buf; L.dedup = 0;
                   rc = (fast ? yr_re_fast_exec : yr_re_exec)(sc0, pairs[k].b, buf + p, buflen - p, p, pfl | RE_FLAGS_BACKWARDS | RE_FLAGS_EXHAUSTIVE, collect_cb, &L, NULL);
                   if (rc != ERROR_SUCCESS) { emit("E%s", errname(rc)); continue; }
                   for (int i = 0; i < L.n; i++) emit("%s%d.%d", i ? "," : "", L.off[i], L.len[i]);
